@@ -1132,6 +1132,17 @@ fn pathological(rng: &mut Rng, thorough: bool) -> Vec<(String, Vec<u8>)> {
         let (chain, _) = crate::checks2::chain_source(*depth);
         v.push((format!("macro-chain-{}", depth), chain.into_bytes()));
     }
+    // a macro use with far more arguments than parameters, and a macro with many parameters
+    for nargs in [11usize, 81, 200, 1000] {
+        let args: Vec<String> = (0..nargs).map(|i| format!("{}", i + 1)).collect();
+        v.push((format!("macro-use-{}-arguments", nargs), format!("macro m(a) -> mov ax, a <-\nstart:\nm({})\nprint reg\n", args.join(", ")).into_bytes()));
+    }
+    for nparams in [11usize, 100, 300] {
+        let ps: Vec<String> = (0..nparams).map(|i| format!("p{}", i)).collect();
+        let body: Vec<String> = (0..nparams).map(|i| format!("mov ax, p{}", i)).collect();
+        let args: Vec<String> = (0..nparams).map(|i| format!("{}", i + 1)).collect();
+        v.push((format!("macro-{}-parameters", nparams), format!("macro m({}) -> {} <-\nstart:\nm({})\nprint reg\n", ps.join(", "), body.join(" "), args.join(", ")).into_bytes()));
+    }
     let nested: String = std::iter::repeat("[").take(big / 10).collect();
     v.push(("deep-brackets".into(), format!("start:\nmov ax, word {}\n", nested).into_bytes()));
     let _ = rng;
